@@ -111,8 +111,10 @@ def m_write_vault(engine, ctx, args, callee, frame):
     return pin_box(future(callee, lambda: ok(unit())))
 
 
-@model(r"TrackedChanges::new_\w+_records(::<.*>)?$")
+@model(r"TrackedChanges::new_folder_events(::<.*>)?$")
 def m_tracked(engine, ctx, args, callee, frame):
+    # the set of tracked changes is bookkeeping for notifications; `new_folder_records` (which decodes the patch and
+    # can fail) runs from MIR, only the fold over the decoded events is stubbed
     return future(callee, lambda: ok(M.SetV("IndexSet")))
 
 
@@ -144,6 +146,8 @@ def scenarios(tier):
     for k in ks:
         out.append({"k": k, "rewind": False, "nb": 1, "n": 1, "force": True})
     out.append({"k": 1, "rewind": False, "nb": 2, "n": 1, "force": True})
+    # the identity folder's merge entry point (same log type as a folder)
+    out.append({"k": 1, "rewind": False, "nb": 1, "n": 1, "identity": True})
     # the merge entry point a sync packet reaches without event_patch around it
     for k in ks:
         out.append({"k": k, "rewind": False, "nb": k, "n": 1, "direct": True})
@@ -204,6 +208,15 @@ def run_scenario(prog, sc):
             diff = Agg("struct", "Diff", [Cell(patch), Cell(proof), Cell(none())])
             outcome = Cell(M.default_value(eng, ctx, "MergeOutcome", None))
             fut = eng.run_fn(fn, [Ref(me), Ref(Cell(folder_id())), diff, Ref(outcome)], {"T": "T"})
+        elif sc.get("identity"):
+            from .c11_devices import find_impl
+            _, fn = find_impl(eng.program, "Merge", "merge_identity")
+            if fn is None:
+                raise Untranslatable("no MIR for <SyncImpl as Merge>::merge_identity")
+            patch = Agg("struct", "Patch", [Cell(O.vec(new)), Cell(Agg("struct", "PhantomData", []))])
+            diff = Agg("struct", "Diff", [Cell(patch), Cell(proof), Cell(none())])
+            outcome = Cell(M.default_value(eng, ctx, "MergeOutcome", None))
+            fut = eng.run_fn(fn, [Ref(me), diff, Ref(outcome)], {"T": "T"})
         elif sc.get("direct"):
             from .c11_devices import find_impl
             _, fn = find_impl(eng.program, "Merge", "merge_folder")
@@ -256,7 +269,7 @@ def run_scenario(prog, sc):
         patch = O.concrete_records(m, v["nmeta"])
         for i, p in enumerate(patch):
             p["payload"] = "".join("%02x" % ev(z3.BitVec("n%d_p%d" % (i, j), 8)) for j in range(PLEN))
-        case = {"op": "server_event_patch", "what": what, "scenario": sc, "direct": bool(sc.get("direct")), "force": bool(sc.get("force")),
+        case = {"op": "server_event_patch", "what": what, "scenario": sc, "direct": bool(sc.get("direct")), "force": bool(sc.get("force")), "identity": bool(sc.get("identity")),
                 "log": O.concrete_records(m, v["imeta"], prefix="i"),
                 "rewind_to": None if v["target"] is None else ev(v["target"]),
                 "proof_of": [ev(b) for b in v["proof_bytes"]],
@@ -300,8 +313,11 @@ def run_scenario(prog, sc):
                 unchanged(res, v, "forced replacement of the folder log refused", "force refused")
             return
         if r.variant == "Ok":
-            first = r.fields[0].v.fields[0].v           # (PatchResponse, MergeOutcome).0 or (CheckedPatch, Vec<_>).0
-            cp = first if sc.get("direct") else first.fields[0].v
+            first = r.fields[0].v.fields[0].v if not sc.get("identity") else None   # (PatchResponse, MergeOutcome).0 or (CheckedPatch, Vec<_>).0
+            if sc.get("identity"):
+                cp = r.fields[0].v                      # Result<CheckedPatch>
+            else:
+                cp = first if sc.get("direct") else first.fields[0].v
             if cp.variant == "Success":
                 # expected base: this log cut after the last occurrence of the target (or the whole log)
                 pb = v["proof_bytes"]
